@@ -1177,7 +1177,8 @@ class Container:
             raise ValueError("Solution is impossible to create.")
 
         for i in range(len(a)):
-            if abs(sum(a[i] * xs) - b[i]) > 1e-6:
+            # every stated value must be met relative to its own size
+            if abs(sum(a[i] * xs) - b[i]) > 1e-6 * (sum(abs(a[i] * xs)) + abs(b[i])):
                 raise ValueError("Solution is impossible to create.")
 
         initial_contents = list((substance, f"{x} {'U' if substance.is_enzyme() else 'mol'}") for x, substance in
